@@ -261,6 +261,15 @@ func oracleMessage(c *Ctx, spc *MsgSpec, out []byte, checkC01, checkC02 bool) {
 				c.Violate("c02-extra-part-field", fmt.Sprintf("leaf %d carries a Content-Description (%q) that nobody set for it", i, got), spc)
 			}
 		}
+		if checkC02 && !checkC01 && x.kind != "part" && msgCharsetUTF8 {
+			// the file name is one of the strings of C02: it decodes to what was set (after the documented replacements)
+			cd, _ := l.Get("Content-Disposition")
+			if _, params, err := parseParams(cd); err == nil {
+				if fn, derr := decode2047(params["filename"]); (derr != nil || fn != x.name) && !strings.Contains(x.name, "=?") {
+					c.Violate("c02-filename", fmt.Sprintf("leaf %d: the file name decodes to %.80q (%d bytes), %.80q (%d bytes) was set", i, fn, len(fn), x.name, len(x.name)), spc)
+				}
+			}
+		}
 		if !checkC01 {
 			continue
 		}
@@ -365,6 +374,33 @@ func oracleLines(c *Ctx, spc *MsgSpec, out []byte) {
 			}
 		}
 		return // otherwise reported by the C01/C02 oracles
+	}
+	// folded fields unfold to the value that was set (the last value list per key; UTF-8 messages: the
+	// decoder of the harness knows no other charset)
+	if isUTF8Charset(spc.Charset) {
+		lastGen := map[string][]string{}
+		preKey := map[string]bool{}
+		for _, g := range spc.expandedGen() {
+			if g.Pre {
+				preKey[strings.ToLower(g.Key)] = true
+			} else {
+				lastGen[g.Key] = g.Values
+			}
+		}
+		for key, vals := range lastGen {
+			lk := strings.ToLower(key)
+			if len(vals) == 0 || preKey[lk] || (topDefaults[lk] && lk != "date" && lk != "message-id" && lk != "user-agent" && lk != "x-mailer") {
+				continue
+			}
+			got, n := ent.Get(key)
+			want := strings.Join(vals, ", ")
+			if n == 0 || strings.Contains(want, "=?") {
+				continue
+			}
+			if dec, derr := decode2047(got); derr != nil || normWS(dec) != normWS(want) {
+				c.Violate("c18-unfolds-to-another-value", fmt.Sprintf("field %s (%d bytes as written) unfolds and decodes to %.60q... (%d bytes), %.60q... (%d bytes) was set", key, len(got), dec, len(dec), want, len(want)), spc)
+			}
+		}
 	}
 	var walk func(e *Entity, top bool)
 	walk = func(e *Entity, top bool) {
